@@ -152,4 +152,19 @@ PROPS = {
         'assumptions': ['semantic diagnostic spans are checked by the sema families of C03/C13 (range = node range of the file that holds them)'],
         'partial': ['error-node => diagnostic and semantic spans: oracle only; escape validation offsets come from the unmodelled unescape module'],
     },
+    'C08': {
+        'coq': 'Props/C08.v',
+        'families': [
+            {'name': 'semt', 'args': {'quick': [], 'thorough': []}, 'shards': {'quick': 16, 'thorough': 16}, 'driver_args': []},
+            {'name': 'types', 'args': {'quick': [], 'thorough': ['--triples', 100000]}, 'driver_args': []},
+        ],
+        'exhaustive': {'quick': True, 'thorough': True},
+        'rule': 'every target type (9 base types x widths {none,8,32,64} where allowed x const/non-const = 46 targets) x every value form '
+                '(11 literals incl. negative, imaginary, timing, bit string; a variable and a const variable of every type; 27 arithmetic '
+                'expressions over 9 operand type pairs x {+,*,/}; 7 casts; 2 measurements; 5 subroutine calls) x {declaration, assignment}; '
+                'the value type is read off a probe expression statement; enumerated completely (6400+ programs); plus the types family',
+        'trusted_base': ['Model/TypeRules.v (hand-written mirror of the decision logic), Model/Types.v; Debug formatting of the ASG as the observation channel'],
+        'assumptions': ['types of identifiers/literals/casts/measurements/calls are observed from the implementation, not modelled (lit_typed hypothesis checked by the driver)'],
+        'partial': ['expression typing rules for identifiers, casts, measurements and calls are checked on the implementation only'],
+    },
 }
